@@ -18,15 +18,20 @@ type requestStream struct {
 	header          bodyStreamHeader
 	prefetchedBytes *bytes.Reader
 	reader          *bufio.Reader
-	totalBytesRead  int
-	chunkLeft       int
-	chunkedEOF      bool
+	// contentLength is the declared length of the body (negative for
+	// chunked bodies) at the time the stream was created. The header the
+	// stream reads from belongs to the message and may be changed or reset
+	// by its owner while the body is still on the connection.
+	contentLength  int
+	totalBytesRead int
+	chunkLeft      int
+	chunkedEOF     bool
 }
 
 // fullyRead reports whether the whole framed body has been consumed, so that
 // the underlying reader is positioned at the start of the next message.
 func (rs *requestStream) fullyRead() bool {
-	contentLength := rs.header.ContentLength()
+	contentLength := rs.contentLength
 	if contentLength >= 0 {
 		return rs.totalBytesRead >= contentLength ||
 			(rs.prefetchedBytes != nil && int(rs.prefetchedBytes.Size()) >= contentLength)
@@ -107,11 +112,13 @@ func acquireRequestStream(b *bytebufferpool.ByteBuffer, r *bufio.Reader, h bodyS
 	rs.prefetchedBytes = bytes.NewReader(b.B)
 	rs.reader = r
 	rs.header = h
+	rs.contentLength = h.ContentLength()
 	return rs
 }
 
 func releaseRequestStream(rs *requestStream) {
 	rs.prefetchedBytes = nil
+	rs.contentLength = 0
 	rs.totalBytesRead = 0
 	rs.chunkLeft = 0
 	rs.chunkedEOF = false
